@@ -440,16 +440,96 @@ def run(ck):
         _check_kron(ck, prog, km)
     rr = prog.func(U, "rotate_rho")
     with ck.guard("C04.R4", "rotate_rho", rr.site()):
+        # rotate_rho(rho) = U rho U^dagger for EVERY complex matrix rho (the quantifier names non-symmetric complex ones): decided
+        # as an operator word.  The Kronecker sweep K(us, X) is U X (decided by the rules above), cplx.conjugate is X -> X^dagger.
+        cj_f = prog.func("qucumber.utils.cplx", "conjugate")
+
+        def _stub_k(it, func, env, node):
+            x = argp(env, 1)
+            # which operator the sweep applies: the list of the first sweep is U; another list is U* when its matrices are the
+            # complex conjugates of the first one's, anything else is not followed
+            ms = argp(env, 0)
+            first = it.__dict__.setdefault("_rr_first_us", ms)
+            op_ = "kmul"
+            if ms is not first:
+                a_, b_ = it.concrete_items(first), it.concrete_items(ms)
+                same = a_ is not None and b_ is not None and len(a_) == len(b_) and all(isinstance(p_, VTens) and isinstance(q_, VTens) and p_.term is not None and p_.term == q_.term for p_, q_ in zip(a_, b_))
+                conj_ = False
+                if a_ is not None and b_ is not None and len(a_) == len(b_) and not same:
+                    def cj(t_):
+                        c_ = T.as_stack0(t_) if t_ is not None else None
+                        return T.stack0(c_[0], -c_[1]) if c_ is not None and len(c_) == 2 else None
+                    conj_ = all(isinstance(p_, VTens) and isinstance(q_, VTens) and q_.term is not None and cj(p_.term) is not None and cj(p_.term) == q_.term for p_, q_ in zip(a_, b_))
+                op_ = "kmul" if same else ("kmulc" if conj_ else "kmul?")
+                if a_ is None and b_ is None and isinstance(first, VList) and isinstance(ms, VList):
+                    # both lists are generic (one matrix per letter of a basis string of unknown length): the second one is the
+                    # first one's conjugate when it is an order-preserving map over the first list whose element is the
+                    # element-wise conjugate of the element it was made from
+                    src_ = getattr(ms.obj, "comp_src", None)
+                    p_, q_ = first.obj.elem, ms.obj.elem
+                    if ms.obj is first.obj:
+                        op_ = "kmul"
+                    elif isinstance(src_, VList) and src_.obj is first.obj and isinstance(p_, VTens) and isinstance(q_, VTens) and p_.term is not None and q_.term is not None:
+                        c_, pc_ = T.as_stack0(q_.term), T.as_stack0(p_.term)
+                        part = (lambda k: pc_[k]) if pc_ is not None and len(pc_) == 2 else (lambda k: T.idx0(p_.term, k))
+                        if c_ is not None and len(c_) == 2 and c_[0] == part(0) and c_[1] == -part(1):
+                            op_ = "kmulc"
+                        elif q_.term == p_.term:
+                            op_ = "kmul"
+            r = it.fresh(T.app(op_, x.term) if isinstance(x, VTens) and x.term is not None else None, getattr(x, "shape", None), "tensor", node)
+            r.obj.fw = 64
+            return r
+
+        def _stub_ct(it, func, env, node):
+            x = argp(env, 0)
+            r = it.fresh(T.app("ctr", x.term) if isinstance(x, VTens) and x.term is not None else None, getattr(x, "shape", None), "tensor", node)
+            r.obj.fw = 64
+            return r
+
         def thq(it):
             s = make_state(it, "DensityMatrix")
-            return it.call_function(VFunc(rr), [s, api.basis_str(it), tens(it, "space", ("N", "nv"))], {"rho": api.cx_t(it, "R", ("N", "N"))}, None)
+            o = it.new_tobj("tensor", T.sym("RHO"), (2, "N", "N"), "param:R")
+            o.fw = 64
+            return it.call_function(VFunc(rr), [s, api.basis_str(it), tens(it, "space", ("N", "nv"))], {"rho": VTens(o)}, None)
 
-        paths = [p for p in paths_of(prog, thq, sticky=True, max_paths=20) if p.outcome == "return"]
+        def _word(t):
+            """operator word of a term built from kmul / ctr over RHO: list of tokens, or None"""
+            a = t.single_atom() if t is not None and hasattr(t, "single_atom") else None
+            if isinstance(a, T.Sym) and a.name == "RHO":
+                return ["rho"]
+            if isinstance(a, T.App) and a.op in ("kmul", "kmulc"):
+                w = _word(a.args[0])
+                return None if w is None else ["U" if a.op == "kmul" else "U*"] + w
+            if isinstance(a, T.App) and a.op == "ctr":
+                w = _word(a.args[0])
+                return None if w is None else [_flip(x, "+") for x in reversed(w)]
+            if isinstance(a, T.App) and a.op == "transpose" and len(a.args) == 3 and {a.args[1], a.args[2]} in ({1, 2}, {-1, -2}):
+                # the matrix axes exchanged without conjugation: (A B)^T = B^T A^T
+                w = _word(a.args[0])
+                return None if w is None else [_flip(x, "T") for x in reversed(w)]
+            return None
+
+        def _flip(tok, mark):
+            # tokens carry the marks they were given: X, X+ (conjugate transpose), XT (transpose), X* (conjugate = + and T)
+            name, marks = tok.rstrip("+T*"), tok[len(tok.rstrip("+T*")):]
+            conj_ = ("+" in marks) != ("*" in marks)
+            tr_ = ("+" in marks) != ("T" in marks)
+            if mark == "+":
+                conj_, tr_ = not conj_, not tr_
+            else:
+                tr_ = not tr_
+            return name + ("+" if conj_ and tr_ else "*" if conj_ else "T" if tr_ else "")
+
+        paths = [p for p in paths_of(prog, thq, sticky=True, max_paths=20, stubs={km.qualname: _stub_k, cj_f.qualname: _stub_ct}) if p.outcome == "return"]
+        ck.check(bool(paths), "C04.R4", "rotate_rho returns", rr.site(), "rotate_rho(rho=...) never returns")
         for p in paths:
-            kc = [c for c in p.calls if c[0].endswith("_kron_mult")]
-            cj = [c for c in p.calls if c[0].endswith("cplx.conjugate")]
-            ok = len(kc) == 2 and len(cj) == 1 and argp(kc[0][5], 0) is argp(kc[1][5], 0) and cj[0][7].get("x") == kc[0][6] and argp(kc[1][7], 1) == cj[0][6]
-            ck.check(bool(ok), "C04.R4", "rotate_rho = U (U rho)^dagger", rr.site(), "rotate_rho is not sweep -> conjugate transpose -> sweep with the same unitaries")
+            w = _word(p.value.term if isinstance(p.value, VTens) else None)
+            if w is None:
+                ck.undecided("C04.R4", "rotate_rho = U rho U^dagger", rr.site(), "the result is not a composition of Kronecker sweeps and conjugate transposes of the given matrix: %r" % (str(getattr(p.value, "term", None))[:160],))
+            else:
+                ck.check(w == ["U", "rho", "U+"], "C04.R4", "rotate_rho = U rho U^dagger", rr.site(),
+                         "for an explicitly given matrix rotate_rho returns %s, expected U rho U+ : for a matrix that is not Hermitian this is %s (rho+ denotes the conjugate transpose)"
+                         % (" ".join(w), "the conjugate transpose of the rotated matrix" if w == ["U", "rho+", "U+"] else "another matrix"), key="C04.R4|rotate_rho|operator word")
     # ------------------------------------------------------------------ R2 siblings: the plain result is the first of the extras
     # (the rules above read the internals through include_extras=True; the call form users and KL / NLL / gradients use is
     # include_extras=False - both forms must be the same value on the same inputs)
